@@ -197,15 +197,34 @@ RekeyR(S, x, new, okRes, registerNew) ==
 
 LockMissingS(S, x) == S.h[x].spInit /\ LockOfS(S, x) \notin S.locks       \* DEVIATION D3
 
-SetKey(x, k, v) ==               \* job.sp[k] = v      (v = Absent: del job.sp[k])
+(* in-place edits of the state point mapping: every one of them is load (lazy), lock (D3), mutate, _save *)
+SpEdit(op, args, x, newOf(_), failsIf(_)) ==
   /\ Live(x)
   /\ LET ld == LoadR(St, x) IN
-     IF ld.res # "ok" THEN Apply(ld, "setkey", <<x, k, v>>)
-     ELSE IF LockMissingS(St, x) THEN Apply(Out(St, "KeyError"), "setkey", <<x, k, v>>)                 \* D3
-     ELSE LET cur == ld.s.h[x].spMem.v
-              delAbs == v = Absent /\ cur[k] = Absent
-              new == IF delAbs THEN cur ELSE [cur EXCEPT ![k] = v]
-          IN Apply(RekeyR(ld.s, x, new, IF delAbs THEN "KeyError" ELSE "ok", FALSE), "setkey", <<x, k, v>>)
+     IF ld.res # "ok" THEN Apply(ld, op, args)
+     ELSE IF LockMissingS(St, x) THEN Apply(Out(St, "KeyError"), op, args)                              \* D3
+     ELSE LET cur == ld.s.h[x].spMem.v IN
+          Apply(RekeyR(ld.s, x, IF failsIf(cur) THEN cur ELSE newOf(cur), IF failsIf(cur) THEN "KeyError" ELSE "ok", FALSE), op, args)
+  /\ UNCHANGED <<cacheEx, cacheF, memRead, strays, glast>>
+
+SetKey(x, k, v) ==               \* job.sp[k] = v      (v = Absent: del job.sp[k])
+  SpEdit("setkey", <<x, k, v>>, x, LAMBDA cur : [cur EXCEPT ![k] = v], LAMBDA cur : v = Absent /\ cur[k] = Absent)
+SpPop(x, k) ==                   \* job.sp.pop(k)     (the synced dict's pop has default None: an absent key is no error)
+  SpEdit("sp_pop", <<x, k>>, x, LAMBDA cur : [cur EXCEPT ![k] = Absent], LAMBDA cur : FALSE)
+SpSetDefault(x, k, v) ==         \* job.sp.setdefault(k, v)
+  /\ v # Absent
+  /\ SpEdit("sp_setdefault", <<x, k, v>>, x, LAMBDA cur : IF cur[k] = Absent THEN [cur EXCEPT ![k] = v] ELSE cur, LAMBDA cur : FALSE)
+SpUpdate(x, upd) ==              \* job.sp.update({k: v, ...})   (Absent in upd: key not mentioned)
+  SpEdit("sp_update", <<x, upd>>, x, LAMBDA cur : [k \in Keys |-> IF upd[k] # Absent THEN upd[k] ELSE cur[k]], LAMBDA cur : FALSE)
+SpClear(x) ==                    \* job.sp.clear(): like reset() it empties the in-memory mapping BEFORE taking the lock
+  LET empty == [k \in Keys |-> Absent] IN
+  /\ Live(x)
+  /\ LET ld == LoadR(St, x) IN
+     IF ld.res # "ok" THEN Apply(ld, "sp_clear", <<x>>)
+     ELSE IF LockMissingS(St, x)
+     THEN Apply(Out([St EXCEPT !.h = SetGroup(@, x, LAMBDA g : [g EXCEPT !.spMem = Known(empty)]),
+                               !.taint = IF empty = St.h[x].id THEN @ ELSE @ \cup {"D3-leak"}], "KeyError"), "sp_clear", <<x>>)   \* D3
+     ELSE Apply(RekeyR(ld.s, x, empty, "ok", FALSE), "sp_clear", <<x>>)
   /\ UNCHANGED <<cacheEx, cacheF, memRead, strays, glast>>
 
 (* AssignR: job.statepoint = new. No load is needed, so it works on a handle opened by id; reset()
@@ -399,6 +418,10 @@ Next ==
   \/ On("readsp")    /\ \E x \in Handles : ReadSp(x)
   \/ On("remove")    /\ \E x \in Handles : Remove(x)
   \/ On("setkey")    /\ \E x \in Handles, k \in Keys, v \in Vals \cup {Absent} : SetKey(x, k, v)
+  \/ On("sp_pop")    /\ \E x \in Handles, k \in Keys : SpPop(x, k)
+  \/ On("sp_setdefault") /\ \E x \in Handles, k \in Keys, v \in Vals : SpSetDefault(x, k, v)
+  \/ On("sp_update") /\ \E x \in Handles, u \in SP : SpUpdate(x, u)
+  \/ On("sp_clear")  /\ \E x \in Handles : SpClear(x)
   \/ On("assign")    /\ \E x \in Handles, sp \in SP : AssignSp(x, sp)
   \/ On("update_sp") /\ \E x \in Handles, k \in Keys, v \in Vals, ow \in BOOLEAN : UpdateSp(x, k, v, ow)
   \/ On("docset")    /\ \E x \in Handles, d \in DocVals : DocSet(x, d)
@@ -442,7 +465,7 @@ PersistExact == [][(last'.op = "init" /\ last'.res = "ok") => \E x \in Handles :
 InitIdempotent == [][(last'.op = "init" /\ \E x \in Handles : last'.args = <<x>> /\ Valid(h[x].proj, h[x].id)) => ws' = ws]_vars
 (* C04 *)
 NoClobber   == [][last'.res = "DestinationExistsError" => ws' = ws]_vars
-RekeyOps    == {"setkey", "assign", "update_sp"}
+RekeyOps    == {"setkey", "assign", "update_sp", "sp_pop", "sp_setdefault", "sp_update", "sp_clear"}
 Rekeyed(x)  == last'.op \in RekeyOps /\ last'.res = "ok" /\ last'.args[1] = x /\ h'[x].id # h[x].id
 RekeyCarries == [][\A x \in Handles : (Rekeyed(x) /\ HasFile(Rec(h[x].proj, h[x].id))) =>      \* an initialised job
                      LET p == h[x].proj  old == h[x].id  new == h'[x].id IN
